@@ -237,6 +237,33 @@ func propC10(c *ctx) error {
 			}
 		}
 	}
+	// ---- the object of a range directive is an expression written WITHOUT a block: it too is consumed whole or rejected
+	// (every non-continuing suffix after a complete object, in every header form)
+	for _, sfx := range suffixes {
+		for _, hdr := range []string{"i, x : ", "x : ", "", "_, x : "} {
+			for _, obj := range []string{"xs", "m.k", "xs[0:1]", "(xs)", "f()"} {
+				if hdr == "" && strings.Contains(obj, ":") {
+					continue
+				}
+				if strings.ContainsAny(sfx, "\"") {
+					continue
+				}
+				src := `<ul><li :range="` + hdr + obj + sfx + `" :text="${a}">o</li></ul>`
+				rc := &renderCase{Files: [][2]string{{"t", src}}, Tpl: "t", Data: vMap(kv{"a", vInt(1)}, kv{"xs", vIntSlice(1, 2)}, kv{"m", vMap(kv{"k", vIntSlice(3)})}, kv{"f", val{nil, J{"fn": "f"}}}).j,
+					Fns: map[string]fnDecl{"f": {Kind: "val", Ret: vIntSlice(4).j}}}
+				out, _, err := compareRender(c, rc, true)
+				if err != nil {
+					return err
+				}
+				res.eval("rangeobj|"+src, true, J{"tpl": src})
+				res.S3Checked++
+				res.count("range_object_suffixes")
+				if out.Load == "ok" && out.St == "ok" {
+					res.violate(rc.toJ(), "load error or render error", J{"st": out.St, "out": out.text()}, "a range object followed by text that does not continue the expression is accepted (the rest silently ignored)")
+				}
+			}
+		}
+	}
 	// ---- a block without an expression (${}, ${ }, ${<tab><newline>}, a comment only) is not a value: rejected at load in
 	// every directive kind and position, never rendered as empty text
 	for _, blank := range []string{"", " ", "\t\n", "  \n  ", "/* c */", " // c\n", "\u00a0"} {
